@@ -345,10 +345,19 @@ Qed.
 
 (** ** Part 3: the operations *)
 
-(** the signer of a create message is not a module account (module accounts cannot sign); the histories of
-    the theorems contain no parameter change (see ParamChange.v for what survives one) *)
-Definition wf_op (o : op) : Prop :=
-  match o with Create m => m_sender m <> ESC /\ m_sender m <> BLK | SetParams _ _ => False | _ => True end.
+(** [compat_b] (Model.v): a parameter change is compatible with the current usage *)
+(** well-formedness of an operation IN A STATE: the signer of a create message is not a module account
+    (module accounts cannot sign); an accepted parameter change is compatible with the current usage *)
+Definition wf_op (s : state) (o : op) : Prop :=
+  match o with
+  | Create m => m_sender m <> ESC /\ m_sender m <> BLK
+  | SetParams who P' => step_ok s o = true -> compat_b s P' = true
+  | _ => True
+  end.
+
+(** ... along a history *)
+Fixpoint wf_run (s : state) (ops : list op) : Prop :=
+  match ops with [] => True | o :: rest => wf_op s o /\ wf_run (step s o) rest end.
 
 Lemma with_asset_Some s d f s1 : with_asset s d f = Some s1 ->
   exists a p a', get d (st_assets s) = Some a /\ get_param (st_params s) d = Some p /\ f p a = Some a'
@@ -360,6 +369,21 @@ Proof.
   destruct (f p a) as [a'|] eqn:Hf; [|discriminate].
   intros H; inversion H. exists a, p, a'. auto.
 Qed.
+
+Lemma with_supply_Some s d f s1 : with_supply s d f = Some s1 ->
+  exists a a', get d (st_assets s) = Some a /\ f no_param a = Some a'
+    /\ s1 = mkSt (st_params s) (st_contracts s) (st_queue s) (st_bank s) (st_supply s)
+                 (set d a' (st_assets s)) (st_prev s) (st_height s) (st_time s) (st_log s) (st_win s).
+Proof.
+  unfold with_supply. destruct (get d (st_assets s)) as [a|]; [|discriminate].
+  destruct (f no_param a) as [a'|] eqn:Hf; [|discriminate].
+  intros H; inversion H. exists a, a'. auto.
+Qed.
+
+Lemma with_supply_ok s d f a a' : get d (st_assets s) = Some a -> f no_param a = Some a' ->
+  with_supply s d f = Some (mkSt (st_params s) (st_contracts s) (st_queue s) (st_bank s) (st_supply s)
+                                (set d a' (st_assets s)) (st_prev s) (st_height s) (st_time s) (st_log s) (st_win s)).
+Proof. intros Ha Hf. unfold with_supply. rewrite Ha, Hf. reflexivity. Qed.
 
 Lemma inv_lim s d p a : Inv s -> get_param (st_params s) d = Some p -> get d (st_assets s) = Some a -> lim_ok p a.
 Proof.
@@ -414,7 +438,7 @@ Qed.
 Definition new_contract (s : state) (m : create_msg) (dr : dir) : contract :=
   mkC (m_sender m) (m_to m) (m_amount m) (m_hl m) (m_ts m) (st_height s + m_lock m) Open 0 (m_transfer m) dr.
 
-Lemma create_open_rel s m s' : Inv s -> wf_op (Create m) -> create s m = Some s' ->
+Lemma create_open_rel s m s' : Inv s -> wf_op s (Create m) -> create s m = Some s' ->
   exists dr, open_rel s s' (id_of m) (new_contract s m dr).
 Proof.
   intros I (Hs1 & Hs2). unfold create.
@@ -557,9 +581,9 @@ Proof.
     destruct (c_dir c) eqn:Hd; [congruence| |].
     + (* incoming: decrement incoming, increment current, mint, pay the recipient *)
       cbn in Gin.
-      assert (F1 : dec_incoming x p a = Some (mkAS (as_in a - x) (as_out a) (as_cur a) (as_tlc a) (as_el a))).
+      assert (F1 : dec_incoming x no_param a = Some (mkAS (as_in a - x) (as_out a) (as_cur a) (as_tlc a) (as_el a))).
       { unfold dec_incoming. replace (as_in a - x <? 0) with false by (symmetry; apply Z.ltb_ge; lia). reflexivity. }
-      rewrite (with_asset_ok _ _ _ _ _ _ Ha Hp F1).
+      rewrite (with_supply_ok _ _ _ _ _ Ha F1).
       set (a1 := mkAS (as_in a - x) (as_out a) (as_cur a) (as_tlc a) (as_el a)).
       set (a2 := mkAS (as_in a - x) (as_out a) (as_cur a + x) (if ap_tl p then as_tlc a + x else as_tlc a) (as_el a)).
       assert (F2 : inc_current x p a1 = Some a2).
@@ -599,16 +623,16 @@ Proof.
       * unfold close_events, is_in. rewrite Htr, Hd, Ham. reflexivity.
     + (* outgoing: decrement outgoing and current, burn *)
       cbn in Gout, Gesc.
-      assert (F1 : dec_outgoing x p a = Some (mkAS (as_in a) (as_out a - x) (as_cur a) (as_tlc a) (as_el a))).
+      assert (F1 : dec_outgoing x no_param a = Some (mkAS (as_in a) (as_out a - x) (as_cur a) (as_tlc a) (as_el a))).
       { unfold dec_outgoing. replace (as_out a - x <? 0) with false by (symmetry; apply Z.ltb_ge; lia). reflexivity. }
-      rewrite (with_asset_ok _ _ _ _ _ _ Ha Hp F1).
+      rewrite (with_supply_ok _ _ _ _ _ Ha F1).
       set (a1 := mkAS (as_in a) (as_out a - x) (as_cur a) (as_tlc a) (as_el a)).
       set (a2 := mkAS (as_in a) (as_out a - x) (as_cur a - x) (as_tlc a) (as_el a)).
-      assert (F2 : dec_current x p a1 = Some a2).
+      assert (F2 : dec_current x no_param a1 = Some a2).
       { unfold dec_current, a1, a2. cbn.
         replace (as_cur a - x <? 0) with false by (symmetry; apply Z.ltb_ge; lia). reflexivity. }
-      match goal with |- context [with_asset ?s1 d (dec_current x)] =>
-        rewrite (with_asset_ok s1 d (dec_current x) a1 p a2 (get_set_same _ _ _) Hp F2) end.
+      match goal with |- context [with_supply ?s1 d (dec_current x)] =>
+        rewrite (with_supply_ok s1 d (dec_current x) a1 a2 (get_set_same _ _ _) F2) end.
       unfold burn, set_bank_log. sproj. cbn [debit_coins]. unfold debit.
       replace ((0 <=? x) && (x <=? bal (st_bank s) ESC d)) with true
         by (symmetry; apply andb_true_iff; split; apply Z.leb_le; lia).
@@ -668,9 +692,9 @@ Proof.
     rewrite Ham.
     destruct (c_dir c) eqn:Hd; [congruence| |].
     + cbn in Gin.
-      assert (F1 : dec_incoming x p a = Some (mkAS (as_in a - x) (as_out a) (as_cur a) (as_tlc a) (as_el a))).
+      assert (F1 : dec_incoming x no_param a = Some (mkAS (as_in a - x) (as_out a) (as_cur a) (as_tlc a) (as_el a))).
       { unfold dec_incoming. replace (as_in a - x <? 0) with false by (symmetry; apply Z.ltb_ge; lia). reflexivity. }
-      rewrite (with_asset_ok _ _ _ _ _ _ Ha Hp F1).
+      rewrite (with_supply_ok _ _ _ _ _ Ha F1).
       unfold dequeue, set_contract. constructor; sproj; try reflexivity; try assumption; try discriminate.
       * intros d0. unfold w_esc, locksb, is_out. rewrite Htr, Hd. cbn. rewrite andb_false_r. lia.
       * intros d0 p0 a0 Hp0 Ha0. rewrite !get_set.
@@ -686,9 +710,9 @@ Proof.
            split; [exact (inv_lim _ _ _ _ I Hp0 Ha0)|]. intros; lia.
       * unfold close_events, locksb, is_out. rewrite Htr, Hd. cbn. reflexivity.
     + cbn in Gout, Gesc.
-      assert (F1 : dec_outgoing x p a = Some (mkAS (as_in a) (as_out a - x) (as_cur a) (as_tlc a) (as_el a))).
+      assert (F1 : dec_outgoing x no_param a = Some (mkAS (as_in a) (as_out a - x) (as_cur a) (as_tlc a) (as_el a))).
       { unfold dec_outgoing. replace (as_out a - x <? 0) with false by (symmetry; apply Z.ltb_ge; lia). reflexivity. }
-      rewrite (with_asset_ok _ _ _ _ _ _ Ha Hp F1).
+      rewrite (with_supply_ok _ _ _ _ _ Ha F1).
       unfold pay_out. rewrite Hbl. sproj.
       destruct (send_coins_ok [(d, x)] (st_bank s) ESC (c_sender c) Hne) as [l' Hsend].
       { rewrite <- Ham. exact Hpos. }
@@ -769,10 +793,10 @@ Proof.
     { unfold s1, dequeue, refund. cbv zeta. sproj.
       destruct (c_transfer c).
       - destruct (c_amount c) as [|[d x] cs]; [split; reflexivity|]. destruct (c_dir c); [split; reflexivity| |].
-        + destruct (with_asset s d (dec_incoming x)) as [s2|] eqn:Hw; [|split; reflexivity].
-          destruct (with_asset_Some _ _ _ _ Hw) as (? & ? & ? & _ & _ & _ & ->). split; reflexivity.
-        + destruct (with_asset s d (dec_outgoing x)) as [s2|] eqn:Hw; [|split; reflexivity].
-          destruct (with_asset_Some _ _ _ _ Hw) as (? & ? & ? & _ & _ & _ & ->).
+        + destruct (with_supply s d (dec_incoming x)) as [s2|] eqn:Hw; [|split; reflexivity].
+          destruct (with_supply_Some _ _ _ _ Hw) as (? & ? & _ & _ & ->). split; reflexivity.
+        + destruct (with_supply s d (dec_outgoing x)) as [s2|] eqn:Hw; [|split; reflexivity].
+          destruct (with_supply_Some _ _ _ _ Hw) as (? & ? & _ & _ & ->).
           unfold pay_out. destruct (blocked (c_sender c)); [split; reflexivity|]. sproj.
           destruct (send_coins _ _ _ _); split; reflexivity.
       - unfold pay_out. destruct (blocked (c_sender c)); [split; reflexivity|].
@@ -959,8 +983,72 @@ Proof.
   - exact (S _ _ Hg Ho).
 Qed.
 
-Lemma step_inv s o : Inv s -> Strict s -> wf_op o ->
-  Inv (step s o) /\ Strict (step s o) /\ st_params (step s o) = st_params s.
+(** *** parameter changes *)
+Definition same_denoms (P P' : list aparam) : Prop :=
+  forall d, get_param P d = None <-> get_param P' d = None.
+
+(** the new limits cover the current usage of every asset *)
+Definition covers (s : state) (P' : list aparam) : Prop :=
+  forall d p' a, get_param P' d = Some p' -> get d (st_assets s) = Some a ->
+    lim_ok p' a /\ (ap_tl p' = true -> as_tlc a = sup_of (st_win s) d).
+
+Lemma wfc_params P P' id c : same_denoms P P' -> wfc P id c -> wfc P' id c.
+Proof.
+  intros SD (H1 & H2 & H3 & H4 & H5 & H6 & H7 & H8). unfold wfc. repeat (split; [assumption|]).
+  destruct (c_transfer c); [|exact H8]. destruct H8 as [(d & x & Ha & Hp) Hd]. split; [|exact Hd].
+  exists d, x. split; [exact Ha|]. intros Hn. apply Hp. apply SD. exact Hn.
+Qed.
+
+Lemma same_denoms_lookup P P' d p' : same_denoms P P' -> get_param P' d = Some p' -> exists p, get_param P d = Some p.
+Proof.
+  intros SD Hp'. destruct (get_param P d) as [p|] eqn:E; [eauto|]. apply SD in E. congruence.
+Qed.
+
+Lemma inv_after_compatible_param_change_lemma s P' : Inv s -> Strict s ->
+  same_denoms (st_params s) P' -> covers s P' ->
+  Inv (set_params s P') /\ Strict (set_params s P').
+Proof.
+  intros I S SD CV. split; [|exact S]. unfold set_params. constructor; sproj; try apply I.
+  - intros id c Hin. exact (wfc_params _ _ _ _ SD (inv_wfc _ I _ _ Hin)).
+  - intros d p' Hp'. destruct (same_denoms_lookup _ _ _ _ SD Hp') as (p & Hp).
+    destruct (inv_asset _ I d p Hp) as (a & Ha & H1 & H2 & H3 & H4 & _ & _).
+    destruct (CV d p' a Hp' Ha) as [L W]. exists a. auto 10.
+Qed.
+
+Lemma lim_ok_b_sound p a : lim_ok_b p a = true -> lim_ok p a.
+Proof.
+  unfold lim_ok_b, lim_ok. intros H. apply andb_true_iff in H. destruct H as [H H4].
+  apply andb_true_iff in H. destruct H as [H H3]. apply andb_true_iff in H. destruct H as [H1 H2].
+  apply Z.leb_le in H1, H2, H3. repeat (split; [assumption|]). intros Htl. rewrite Htl in H4. simpl in H4.
+  apply Z.leb_le. exact H4.
+Qed.
+
+Lemma has_param_of_In P p : In p P -> has_param P (ap_denom p) = true.
+Proof. intros Hin. unfold has_param. destruct (get_param_of_In _ _ Hin) as (p' & ->). reflexivity. Qed.
+
+Lemma compat_b_sound s P' : compat_b s P' = true -> same_denoms (st_params s) P' /\ covers s P'.
+Proof.
+  unfold compat_b, same_denoms_b. intros H. apply andb_true_iff in H. destruct H as [H H3]. apply andb_true_iff in H. destruct H as [H1 H2].
+  rewrite forallb_forall in H1, H2, H3. split.
+  - intros d. split; intros Hn.
+    + destruct (get_param P' d) as [p'|] eqn:E; [|reflexivity]. exfalso.
+      pose proof (get_param_denom _ _ _ E) as Hd. unfold get_param in E. apply find_some in E. destruct E as [Hin _].
+      pose proof (H2 p' Hin) as Hh. unfold has_param in Hh. rewrite Hd, Hn in Hh. discriminate.
+    + destruct (get_param (st_params s) d) as [p|] eqn:E; [|reflexivity]. exfalso.
+      pose proof (get_param_denom _ _ _ E) as Hd. unfold get_param in E. apply find_some in E. destruct E as [Hin _].
+      pose proof (H1 p Hin) as Hh. unfold has_param in Hh. rewrite Hd, Hn in Hh. discriminate.
+  - intros d p' a Hp' Ha. pose proof (get_param_denom _ _ _ Hp') as Hd. unfold get_param in Hp'. apply find_some in Hp'.
+    destruct Hp' as [Hin _]. pose proof (H3 p' Hin) as Hc. rewrite Hd, Ha in Hc.
+    apply andb_true_iff in Hc. destruct Hc as [Hl Hw]. split; [exact (lim_ok_b_sound _ _ Hl)|].
+    intros Htl. rewrite Htl in Hw. simpl in Hw. apply Z.eqb_eq. exact Hw.
+Qed.
+
+(** the parameters after a step *)
+Definition params_after (s : state) (o : op) : list aparam :=
+  match o with SetParams who P' => if step_ok s o then P' else st_params s | _ => st_params s end.
+
+Lemma step_inv s o : Inv s -> Strict s -> wf_op s o ->
+  Inv (step s o) /\ Strict (step s o) /\ st_params (step s o) = params_after s o.
 Proof.
   intros I S W. unfold step. destruct o as [m|who id secret|dts|gw gP]; simpl.
   - destruct (create s m) as [s'|] eqn:Hc; [|auto].
@@ -974,11 +1062,14 @@ Proof.
     destruct Hs as (_ & c & Hg & Ho & _ & R).
     split; [exact (close_rel_inv _ _ _ _ _ I R)|]. split; [exact (close_rel_strict _ _ _ _ _ S R)|exact (cr_params _ _ _ _ _ R)].
   - destruct (adv_spec dts s I S) as (I' & S' & Hp & _). auto.
-  - destruct W.
+  - unfold wf_op, step_ok in W. cbn [exec] in W. unfold step_ok. cbn [exec].
+    destruct ((gw =? GOV) && params_valid gP) eqn:E; [|auto].
+    destruct (compat_b_sound s gP (W eq_refl)) as [SD CV].
+    destruct (inv_after_compatible_param_change_lemma s gP I S SD CV) as [I' S']. auto.
 Qed.
 
 (** one step never deletes a contract and changes it at most by closing it, if it was open *)
-Lemma step_contract s o : Inv s -> Strict s -> wf_op o -> forall id c, get id (st_contracts s) = Some c ->
+Lemma step_contract s o : Inv s -> Strict s -> wf_op s o -> forall id c, get id (st_contracts s) = Some c ->
   exists c', get id (st_contracts (step s o)) = Some c'
     /\ (c' = c \/ (c_state c = Open /\ exists st h, st <> Open /\ c' = close c st h)).
 Proof.
@@ -996,7 +1087,7 @@ Proof.
   - destruct (adv_spec dts s I S) as (_ & _ & _ & Hc). destruct (Hc id c Hg) as (c' & Hg' & Hor).
     exists c'. split; [exact Hg'|]. destruct Hor as [->|(Ho & h & _ & ->)]; [left; reflexivity|].
     right. split; [exact Ho|]. exists Refunded, h. split; [discriminate|reflexivity].
-  - destruct W.
+  - destruct ((gw =? GOV) && params_valid gP); exists c; auto.
 Qed.
 
 Definition params_ok (P : list aparam) : Prop := Forall (fun p => 0 <= ap_limit p /\ 0 <= ap_tbl p) P.
@@ -1024,33 +1115,44 @@ Proof.
   - intros id c Hg. discriminate.
 Qed.
 
-Lemma run_inv : forall ops s, Inv s -> Strict s -> Forall wf_op ops ->
-  Inv (run s ops) /\ Strict (run s ops) /\ st_params (run s ops) = st_params s.
+Lemma run_inv : forall ops s, Inv s -> Strict s -> wf_run s ops -> Inv (run s ops) /\ Strict (run s ops).
 Proof.
   unfold run. induction ops as [|o ops IH]; intros s I S W; simpl; [auto|].
-  inversion W as [|? ? Wo Wops]; subst. destruct (step_inv s o I S Wo) as (I1 & S1 & P1).
-  destruct (IH _ I1 S1 Wops) as (I2 & S2 & P2). rewrite P2, P1. auto.
+  destruct W as [Wo Wops]. destruct (step_inv s o I S Wo) as (I1 & S1 & _). exact (IH _ I1 S1 Wops).
+Qed.
+
+Definition no_param_change (ops : list op) : Prop := Forall (fun o => forall who P', o <> SetParams who P') ops.
+
+Lemma run_params : forall ops s, Inv s -> Strict s -> wf_run s ops -> no_param_change ops -> st_params (run s ops) = st_params s.
+Proof.
+  unfold run. induction ops as [|o ops IH]; intros s I S W N; simpl; [reflexivity|].
+  destruct W as [Wo Wops]. inversion N as [|? ? No Nops]; subst. destruct (step_inv s o I S Wo) as (I1 & S1 & P1).
+  rewrite (IH _ I1 S1 Wops Nops), P1. destruct o; try reflexivity. exfalso. exact (No _ _ eq_refl).
+Qed.
+
+Lemma wf_run_app : forall a s b, wf_run s (a ++ b) <-> wf_run s a /\ wf_run (run s a) b.
+Proof.
+  unfold run. induction a as [|o a IH]; intros s b; simpl; [tauto|]. rewrite IH. tauto.
 Qed.
 
 (** reachable states: any history of well-formed operations from genesis *)
 Definition reachable (P : list aparam) (b : ledger) (t0 : Z) (ops : list op) : state := run (init P b t0) ops.
 
-Lemma reach_inv P b t0 ops : params_ok P -> escrow_empty b -> Forall wf_op ops ->
-  Inv (reachable P b t0 ops) /\ Strict (reachable P b t0 ops) /\ st_params (reachable P b t0 ops) = P.
+Lemma reach_inv P b t0 ops : params_ok P -> escrow_empty b -> wf_run (init P b t0) ops ->
+  Inv (reachable P b t0 ops) /\ Strict (reachable P b t0 ops).
 Proof.
-  intros HP HE W. destruct (init_inv P b t0 HP HE) as [I S].
-  destruct (run_inv ops _ I S W) as (I' & S' & P'). auto.
+  intros HP HE W. destruct (init_inv P b t0 HP HE) as [I S]. exact (run_inv ops _ I S W).
 Qed.
 
 (** over any further history a contract is never deleted; a closed contract never changes again; an
     open one stays as it is or is closed exactly once *)
-Lemma run_contract : forall ops s, Inv s -> Strict s -> Forall wf_op ops ->
+Lemma run_contract : forall ops s, Inv s -> Strict s -> wf_run s ops ->
   forall id c, get id (st_contracts s) = Some c ->
   exists c', get id (st_contracts (run s ops)) = Some c'
     /\ (c' = c \/ (c_state c = Open /\ exists st h, st <> Open /\ c' = close c st h)).
 Proof.
   unfold run. induction ops as [|o ops IH]; intros s I S W id c Hg; simpl; [exists c; auto|].
-  inversion W as [|? ? Wo Wops]; subst. destruct (step_inv s o I S Wo) as (I1 & S1 & _).
+  destruct W as [Wo Wops]. destruct (step_inv s o I S Wo) as (I1 & S1 & _).
   destruct (step_contract s o I S Wo id c Hg) as (c1 & Hg1 & Hor1).
   destruct (IH _ I1 S1 Wops id c1 Hg1) as (c2 & Hg2 & Hor2). exists c2. split; [exact Hg2|].
   destruct Hor1 as [->|(Ho & st & h & Hst & ->)]; [exact Hor2|].
@@ -1290,6 +1392,9 @@ Qed.
 Lemma with_asset_Acc s d f s' : with_asset s d f = Some s' -> Acc s s'.
 Proof. intros H. destruct (with_asset_Some _ _ _ _ H) as (? & ? & ? & _ & _ & _ & ->). apply Acc_same; reflexivity. Qed.
 
+Lemma with_supply_Acc s d f s' : with_supply s d f = Some s' -> Acc s s'.
+Proof. intros H. destruct (with_supply_Some _ _ _ _ H) as (? & ? & _ & _ & ->). apply Acc_same; reflexivity. Qed.
+
 Lemma create_Acc s m s' : create s m = Some s' -> Acc s s'.
 Proof.
   unfold create. destruct (negb (create_basic m)); [discriminate|]. destruct (blocked (m_to m)); [discriminate|].
@@ -1307,17 +1412,17 @@ Qed.
 Lemma claim_htlt_Acc s id c s' : claim_htlt s id c = Some s' -> Acc s s'.
 Proof.
   unfold claim_htlt. destruct (c_amount c) as [|[d x] cs]; [discriminate|]. destruct (c_dir c); [discriminate| |].
-  - destruct (with_asset s d (dec_incoming x)) as [s1|] eqn:H1; [|discriminate].
+  - destruct (with_supply s d (dec_incoming x)) as [s1|] eqn:H1; [|discriminate].
     destruct (with_asset s1 d (inc_current x)) as [s2|] eqn:H2; [|discriminate]. intros H3.
-    apply (Acc_trans _ s1); [exact (with_asset_Acc _ _ _ _ H1)|].
+    apply (Acc_trans _ s1); [exact (with_supply_Acc _ _ _ _ H1)|].
     apply (Acc_trans _ s2); [exact (with_asset_Acc _ _ _ _ H2)|].
     apply (Acc_trans _ (mint s2 id ((d, x) :: cs))); [apply mint_Acc|].
     apply (Acc_trans _ (add_win (mint s2 id ((d, x) :: cs)) d x)); [apply Acc_same; reflexivity|].
     exact (pay_out_Acc _ _ _ _ _ H3).
-  - destruct (with_asset s d (dec_outgoing x)) as [s1|] eqn:H1; [|discriminate].
-    destruct (with_asset s1 d (dec_current x)) as [s2|] eqn:H2; [|discriminate]. intros H3.
-    apply (Acc_trans _ s1); [exact (with_asset_Acc _ _ _ _ H1)|].
-    apply (Acc_trans _ s2); [exact (with_asset_Acc _ _ _ _ H2)|]. exact (burn_Acc _ _ _ _ H3).
+  - destruct (with_supply s d (dec_outgoing x)) as [s1|] eqn:H1; [|discriminate].
+    destruct (with_supply s1 d (dec_current x)) as [s2|] eqn:H2; [|discriminate]. intros H3.
+    apply (Acc_trans _ s1); [exact (with_supply_Acc _ _ _ _ H1)|].
+    apply (Acc_trans _ s2); [exact (with_supply_Acc _ _ _ _ H2)|]. exact (burn_Acc _ _ _ _ H3).
 Qed.
 
 Lemma claim_Acc s who id secret s' : claim s who id secret = Some s' -> Acc s s'.
@@ -1334,10 +1439,10 @@ Lemma refund_Acc s id c : Acc s (refund s id c).
 Proof.
   unfold refund. cbv zeta. destruct (c_transfer c).
   - destruct (c_amount c) as [|[d x] cs]; [apply Acc_refl|]. destruct (c_dir c); [apply Acc_refl| |].
-    + destruct (with_asset s d (dec_incoming x)) as [s1|] eqn:H1; [|apply Acc_refl].
-      apply (Acc_trans _ s1); [exact (with_asset_Acc _ _ _ _ H1)|apply Acc_same; reflexivity].
-    + destruct (with_asset s d (dec_outgoing x)) as [s1|] eqn:H1; [|apply Acc_refl].
-      apply (Acc_trans _ s1); [exact (with_asset_Acc _ _ _ _ H1)|].
+    + destruct (with_supply s d (dec_incoming x)) as [s1|] eqn:H1; [|apply Acc_refl].
+      apply (Acc_trans _ s1); [exact (with_supply_Acc _ _ _ _ H1)|apply Acc_same; reflexivity].
+    + destruct (with_supply s d (dec_outgoing x)) as [s1|] eqn:H1; [|apply Acc_refl].
+      apply (Acc_trans _ s1); [exact (with_supply_Acc _ _ _ _ H1)|].
       destruct (pay_out s1 id (c_sender c) ((d, x) :: cs)) as [s2|] eqn:H2; [|apply Acc_refl].
       apply (Acc_trans _ s2); [exact (pay_out_Acc _ _ _ _ _ H2)|apply Acc_same; reflexivity].
   - destruct (pay_out s id (c_sender c) (c_amount c)) as [s1|] eqn:H1; [|apply Acc_refl].
@@ -1389,18 +1494,18 @@ Lemma reachable_app P b t0 pre post : reachable P b t0 (pre ++ post) = run (reac
 Proof. unfold reachable, run. apply fold_left_app. Qed.
 
 Lemma state_machine_lemma P b t0 pre post id c :
-  params_ok P -> escrow_empty b -> Forall wf_op (pre ++ post) ->
+  params_ok P -> escrow_empty b -> wf_run (init P b t0) (pre ++ post) ->
   get id (st_contracts (reachable P b t0 pre)) = Some c ->
   exists c', get id (st_contracts (reachable P b t0 (pre ++ post))) = Some c'
     /\ (c' = c \/ (c_state c = Open /\ exists st h, st <> Open /\ c' = close c st h)).
 Proof.
-  intros HP HE W Hg. apply Forall_app in W. destruct W as [W1 W2].
-  destruct (reach_inv P b t0 pre HP HE W1) as (I & S & _). rewrite reachable_app.
+  intros HP HE W Hg. apply wf_run_app in W. destruct W as [W1 W2].
+  destruct (reach_inv P b t0 pre HP HE W1) as (I & S). rewrite reachable_app.
   exact (run_contract post _ I S W2 id c Hg).
 Qed.
 
 (** a contract comes into existence only open, never closed *)
-Lemma created_open_lemma s o id c : Inv s -> Strict s -> wf_op o ->
+Lemma created_open_lemma s o id c : Inv s -> Strict s -> wf_op s o ->
   get id (st_contracts s) = None -> get id (st_contracts (step s o)) = Some c ->
   c_state c = Open /\ c_closed c = 0 /\ st_height s < c_exp c /\ exists m, o = Create m /\ id = id_of m.
 Proof.
@@ -1418,24 +1523,24 @@ Proof.
       destruct (begin_block_spec s dt I S) as (I1 & S1 & _ & _ & Hc). apply IH; [exact I1|exact S1|].
       rewrite Hc, Hn. reflexivity. }
     rewrite (H dts s I S Hn) in Hg. discriminate.
-  - destruct W.
+  - destruct ((gw =? GOV) && params_valid gP); simpl in Hg; congruence.
 Qed.
 
 Lemma claim_htlt_win s id c s' d x cs : c_amount c = (d, x) :: cs -> claim_htlt s id c = Some s' ->
   st_win s' = match c_dir c with Incoming => set d (sup_of (st_win s) d + x) (st_win s) | _ => st_win s end.
 Proof.
   intros Ham. unfold claim_htlt. rewrite Ham. destruct (c_dir c); [discriminate| |].
-  - destruct (with_asset s d (dec_incoming x)) as [s1|] eqn:H1; [|discriminate].
-    destruct (with_asset_Some _ _ _ _ H1) as (? & ? & ? & _ & _ & _ & ->).
+  - destruct (with_supply s d (dec_incoming x)) as [s1|] eqn:H1; [|discriminate].
+    destruct (with_supply_Some _ _ _ _ H1) as (? & ? & _ & _ & ->).
     match goal with |- context [with_asset ?t d (inc_current x)] => destruct (with_asset t d (inc_current x)) as [s2|] eqn:H2; [|discriminate] end.
     destruct (with_asset_Some _ _ _ _ H2) as (? & ? & ? & _ & _ & _ & ->).
     unfold pay_out. destruct (blocked (c_to c)); [discriminate|]. sproj.
     match goal with |- context [send_coins ?l ESC (c_to c) ?cs] => destruct (send_coins l ESC (c_to c) cs); [|discriminate] end.
     intros H; inversion H; subst s'. reflexivity.
-  - destruct (with_asset s d (dec_outgoing x)) as [s1|] eqn:H1; [|discriminate].
-    destruct (with_asset_Some _ _ _ _ H1) as (? & ? & ? & _ & _ & _ & ->).
-    match goal with |- context [with_asset ?t d (dec_current x)] => destruct (with_asset t d (dec_current x)) as [s2|] eqn:H2; [|discriminate] end.
-    destruct (with_asset_Some _ _ _ _ H2) as (? & ? & ? & _ & _ & _ & ->).
+  - destruct (with_supply s d (dec_outgoing x)) as [s1|] eqn:H1; [|discriminate].
+    destruct (with_supply_Some _ _ _ _ H1) as (? & ? & _ & _ & ->).
+    match goal with |- context [with_supply ?t d (dec_current x)] => destruct (with_supply t d (dec_current x)) as [s2|] eqn:H2; [|discriminate] end.
+    destruct (with_supply_Some _ _ _ _ H2) as (? & ? & _ & _ & ->).
     unfold burn. sproj.
     match goal with |- context [debit_coins ?l ESC ?cs] => destruct (debit_coins l ESC cs); [|discriminate] end.
     intros H; inversion H; subst s'. reflexivity.
